@@ -321,8 +321,17 @@ impl<O: Optimizer> Optimizer for SpyOptimizer<O> {
             .map(|p| ParamBefore { value: Obs::of(p), grad: p.gradient().as_ref().map(Obs::of), tracked: is_tracked(p) })
             .collect();
         self.inner.update(parameters.iter_mut().map(|p| &mut **p).collect());
-        let after = parameters.iter().map(|p| ParamAfter { value: Obs::of(p), has_grad: p.gradient().is_some(), tracked: is_tracked(p) }).collect();
-        self.events.borrow_mut().push(Ev::Update { before, after });
+        let after: Vec<ParamAfter> = parameters.iter().map(|p| ParamAfter { value: Obs::of(p), has_grad: p.gradient().is_some(), tracked: is_tracked(p) }).collect();
+        // how many optimizer calls an iteration is split into is not pinned by any property (one call with every
+        // parameter, or one per layer): consecutive calls are one logical update of the concatenated list
+        let mut ev = self.events.borrow_mut();
+        let before: Vec<ParamBefore> = before;
+        if let Some(Ev::Update { before: b0, after: a0 }) = ev.last_mut() {
+            b0.extend(before);
+            a0.extend(after);
+            return;
+        }
+        ev.push(Ev::Update { before, after });
     }
 }
 
